@@ -113,6 +113,27 @@ func record(seed int64, tier, out string) {
 			case 6:
 				plain = gsm
 			}
+			if s == 8 || s == 9 {
+				// a send that must be refused (a message type without an encoder; octets that are no NAS message): nothing is sent, so
+				// no NAS COUNT may be consumed
+				ulB, dlB := int(ue.ULCount.Get()), int(ue.DLCount.Get())
+				var rerr error
+				var ro []byte
+				rp := ev.Catch(func() {
+					if s == 8 {
+						bad := nas.NewMessage()
+						bad.GmmMessage = nas.NewGmmMessage()
+						bad.GmmHeader.SetMessageType(0x4f)
+						bad.SecurityHeader = nas.SecurityHeader{ProtocolDiscriminator: 0x7e, SecurityHeaderType: 2}
+						ro, rerr = tglib.NASEncode(ue, bad, true, false)
+					} else {
+						ro, rerr = tglib.EncodeNasPduWithSecurity(ue, []byte{0x7e, 0x00, 0xff, 0x01}, 2, true, false)
+					}
+				})
+				w.Emit(ev.M{"ev": "Refuse", "id": id, "hist": hi, "step": s, "err": rerr != nil || rp != "", "panic": rp != "", "out": ev.Ints(ro),
+					"ulBefore": ulB, "dlBefore": dlB, "ulAfter": int(ue.ULCount.Get()), "dlAfter": int(ue.DLCount.Get())})
+				id++
+			}
 			hdr := uint8(2)
 			newCtx := h.resets[s]
 			avail := true
@@ -293,11 +314,27 @@ func replay(cases, out string) {
 				// every third message (and every message of at most four octets) arrives the way the registration procedure receives it: inside a DOWNLINK NAS TRANSPORT, through
 				// tglib.GetNasPdu (which returns nil where NASDecode returns an error)
 				dt := ngapType.DownlinkNASTransport{}
-				ie := ngapType.DownlinkNASTransportIEs{}
-				ie.Id.Value = ngapType.ProtocolIEIDNASPDU
-				ie.Value.Present = ngapType.DownlinkNASTransportIEsPresentNASPDU
-				ie.Value.NASPDU = &ngapType.NASPDU{Value: append([]byte{}, pdu...)}
-				dt.ProtocolIEs.List = append(dt.ProtocolIEs.List, ie)
+				add := func(id int64, present int, set func(v *ngapType.DownlinkNASTransportIEsValue)) {
+					ie := ngapType.DownlinkNASTransportIEs{}
+					ie.Id.Value = id
+					ie.Value.Present = present
+					set(&ie.Value)
+					dt.ProtocolIEs.List = append(dt.ProtocolIEs.List, ie)
+				}
+				// the optional IEs of TS 38.413 9.2.5.2 in front of and behind the NAS-PDU, in all eight combinations in turn
+				combo := (ncase / 3) % 8
+				add(ngapType.ProtocolIEIDAMFUENGAPID, ngapType.DownlinkNASTransportIEsPresentAMFUENGAPID, func(v *ngapType.DownlinkNASTransportIEsValue) { v.AMFUENGAPID = &ngapType.AMFUENGAPID{Value: 1} })
+				add(ngapType.ProtocolIEIDRANUENGAPID, ngapType.DownlinkNASTransportIEsPresentRANUENGAPID, func(v *ngapType.DownlinkNASTransportIEsValue) { v.RANUENGAPID = &ngapType.RANUENGAPID{Value: 1} })
+				if combo&1 != 0 {
+					add(ngapType.ProtocolIEIDOldAMF, ngapType.DownlinkNASTransportIEsPresentOldAMF, func(v *ngapType.DownlinkNASTransportIEsValue) { v.OldAMF = &ngapType.AMFName{Value: "old"} })
+				}
+				if combo&2 != 0 {
+					add(ngapType.ProtocolIEIDRANPagingPriority, ngapType.DownlinkNASTransportIEsPresentRANPagingPriority, func(v *ngapType.DownlinkNASTransportIEsValue) { v.RANPagingPriority = &ngapType.RANPagingPriority{Value: 7} })
+				}
+				add(ngapType.ProtocolIEIDNASPDU, ngapType.DownlinkNASTransportIEsPresentNASPDU, func(v *ngapType.DownlinkNASTransportIEsValue) { v.NASPDU = &ngapType.NASPDU{Value: append([]byte{}, pdu...)} })
+				if combo&4 != 0 {
+					add(ngapType.ProtocolIEIDIndexToRFSP, ngapType.DownlinkNASTransportIEsPresentIndexToRFSP, func(v *ngapType.DownlinkNASTransportIEsValue) { v.IndexToRFSP = &ngapType.IndexToRFSP{Value: 3} })
+				}
 				p = ev.Catch(func() { m = tglib.GetNasPdu(ue, &dt) })
 			} else {
 				p = ev.Catch(func() { m, err = tglib.NASDecode(ue, nas.GetSecurityHeaderType(pdu), append([]byte{}, pdu...)) })
@@ -317,6 +354,17 @@ func replay(cases, out string) {
 			}
 			c["obs"] = obs
 			w.Emit(c)
+			if ncase%7 == 0 {
+				// the UE answers now and then: an uplink message under the same context must still carry the next uplink NAS COUNT
+				// (whatever the downlink counter has done in between) and leave the downlink counter alone
+				plain := []byte{0x7e, 0x00, 0x64, byte(ncase)}
+				var o []byte
+				var uerr error
+				up := ev.Catch(func() { o, uerr = tglib.EncodeNasPduWithSecurity(ue, append([]byte{}, plain...), 2, true, false) })
+				w.Emit(ev.M{"ev": "Enc", "id": fmt.Sprintf("%v-ul", c["id"]), "hist": c["hist"], "step": ncase, "hdr": 2, "avail": true, "new": false,
+					"plain": ev.Ints(plain), "out": ev.Ints(o), "err": uerr != nil || up != "",
+					"ulAfter": int(ue.ULCount.Get()), "dlAfter": int(ue.DLCount.Get())})
+			}
 		}
 	}
 }
